@@ -379,12 +379,11 @@ fn binary_index(search: &[f64], val: f64) -> usize {
     while low <= high {
         let mid = low + ((high - low) / 2);
         let el = *search.get(mid as usize).unwrap();
-        if el > val {
+        if el >= val {
+            // also on equality: an earlier entry can hold the same cumulative value (zero-mass category)
             high = mid - 1;
-        } else if el < val {
-            low = mid.saturating_add(1);
         } else {
-            return mid as usize;
+            low = mid.saturating_add(1);
         }
     }
     cmp::min(search.len(), cmp::max(low, 0) as usize)
